@@ -18,6 +18,7 @@
   empty index / empty slice assignments skip the validation of the value.
 -/
 import HealSparse.Lemmas.Packed
+import HealSparse.Lemmas.TwinOps
 namespace HS
 namespace C05
 open Packed
@@ -694,6 +695,83 @@ theorem bopPBA_bits (h : Heap) (p q : PBA) (hp : WF h p) (hq : WF h q)
 theorem dataArray_eq (h : Heap) (p : PBA) :
     dataArray h p = if p.start = 0 then .ok (p.data h) else .error .notImpl :=
   dataArray_spec h p
+
+/-! ### C05 at the world level: a bit-packed boolean map is indistinguishable from an ordinary one
+
+A SIMULATION between two driver worlds that differ only in which boolean entries are `.packed`
+and which are `.plain .bool` (`World.Twin`, Lemmas/TwinWorld.lean: same names in the same order,
+entries pairwise `MapObj.Twin`, files pairwise `FileObj.Twin`, everything else equal).  Method:
+`World.norm` retags every bit-packed entry as an ordinary boolean map; twins are exactly the
+worlds with the same normal form; each of the 51 operations of Model/Dispatch.lean commutes with
+the normalisation (Lemmas/TwinOps.lean, `sim_opXxx`), unless the line is in the exception set.
+
+The exception set `asym w op a` (Lemmas/TwinOps.lean; the same in twin worlds, `asymLine_twin`):
+`info`, `pack`, `deg`, `upg` of a boolean map; `deg` with a boolean weight map; `genhp ord=…` of
+a boolean map; `dor` on a boolean file or with a boolean weight file; `nvalid path=str` of a
+boolean map; `upd … vdtype=b1` on a boolean map.  Every class is witnessed by an evaluated pair
+of histories with different answers (`#guard`s at the end of Lemmas/TwinOps.lean); creation
+(`cfg … kind=packed` against `cfg … kind=plain dtype=b1`, different LINES) is `make_empty_packed_iff`
+and `cfg_twin`.  Everything else — updates by pixels and by ranges, boolean algebra, inversion,
+masking, `astype`, the union / intersection operations, counting and listing, sub-maps, fracdet,
+MOC and HEALPix interchange, `write` / `read` / `cat` / `fitsraw` / `covread`, copies, views,
+metadata — is PROVED symmetric. -/
+
+/-- **one protocol line in twin worlds**: outside the exception set, the same line gives the
+    same answer and twin worlds again (both worlds satisfying the reachability invariant
+    `World.Good` of C04) -/
+theorem twin_step {w₁ w₂ : World} (h : w₁.Twin w₂) (g₁ : w₁.Good) (g₂ : w₂.Good) (line : String)
+    (hex : asymLine w₁ line = false) :
+    (step w₁ line).2 = (step w₂ line).2 ∧ (step w₁ line).1.Twin (step w₂ line).1 :=
+  HS.twin_step h g₁ g₂ line hex
+
+/-- **any history in twin worlds**: if no line falls in the exception set (`twinSafe`: each line
+    judged in the world it is run in), the two runs give the same list of answers and end in
+    twin worlds -/
+theorem twin_history {w₁ w₂ : World} (h : w₁.Twin w₂) (g₁ : w₁.Good) (g₂ : w₂.Good)
+    (lines : List String) (hs : twinSafe w₁ lines = true) :
+    (runObs w₁ lines).2 = (runObs w₂ lines).2 ∧ (runObs w₁ lines).1.Twin (runObs w₂ lines).1 :=
+  HS.twin_history h g₁ g₂ lines hs
+
+/-- … in particular after any two setup histories that lead to twin worlds (reachable worlds are
+    `Good`, C04) -/
+theorem twin_reachable (setup₁ setup₂ lines : List String)
+    (h : (runLines setup₁).Twin (runLines setup₂)) (hs : twinSafe (runLines setup₁) lines = true) :
+    (runObs (runLines setup₁) lines).2 = (runObs (runLines setup₂) lines).2 ∧
+      (runObs (runLines setup₁) lines).1.Twin (runObs (runLines setup₂) lines).1 :=
+  HS.twin_history h (Good.runLines setup₁) (Good.runLines setup₂) lines hs
+
+/-- the exception set does not depend on which of two twin worlds it is judged in -/
+theorem asym_twin {w₁ w₂ : World} (h : w₁.Twin w₂) (g₁ : w₁.Good) (g₂ : w₂.Good) (line : String) :
+    asymLine w₁ line = asymLine w₂ line :=
+  asymLine_twin h g₁ g₂ line
+
+/-- twins are the worlds with the same ordinary-boolean normal form -/
+theorem twin_iff_norm {w₁ w₂ : World} : w₁.Twin w₂ ↔ w₁.norm = w₂.norm := World.twin_iff
+
+/-- creation: `make_empty` builds a bit-packed map exactly when it builds the ordinary boolean map
+    with the same arguments, the coverage pixels hold a multiple of 8 pixels and the sentinel is
+    `False`; the two maps then differ in the kind only -/
+theorem make_empty_packed_iff (co so : Nat) (sent : Option Val) (cp : List Nat) (m : MapObj) :
+    apiMakeEmpty co so .packed sent cp = .ok m ↔
+      (cfgOf co so).nfine % 8 = 0 ∧ ∃ m', apiMakeEmpty co so (.plain .bool) sent cp = .ok m' ∧
+        m'.sent = .bool false ∧ m = { m' with kind := .packed } :=
+  apiMakeEmpty_packed_iff co so sent cp m
+
+/-- … and the two creation lines, where both succeed, lead from twin worlds to twin worlds -/
+theorem cfg_twin {w₁ w₂ : World} (h : w₁.Twin w₂) (n : String) {co so : Nat} {sent : Option Val}
+    {cp : List Nat} {m₁ m₂ : MapObj} (h₁ : apiMakeEmpty co so .packed sent cp = .ok m₁)
+    (h₂ : apiMakeEmpty co so (.plain .bool) sent cp = .ok m₂) :
+    m₁.Twin m₂ ∧ (w₁.bind n m₁).Twin (w₂.bind n m₂) :=
+  HS.cfg_twin h n h₁ h₂
+
+/-- non-vacuity: the two worlds `exW₁` / `exW₂` (`a` bit-packed and `b` ordinary, and the other
+    way round) are twins and good (kernel-checked), the 42-line history `exCommon` mixing both
+    kinds of operand passes the executable check and gives the same answers in both (evaluated:
+    Lemmas/TwinOps.lean) -/
+example : exW₁.Twin exW₂ ∧ exW₁.Good ∧ exW₂.Good := ⟨exW_twin, exW_good.1, exW_good.2⟩
+
+#guard twinSafe exW₁ exCommon && (runObs exW₁ exCommon).2 == (runObs exW₂ exCommon).2
+#guard (runObs (runLines exSetup₁) exCommon).2 == (runObs (runLines exSetup₂) exCommon).2
 
 end C05
 end HS
